@@ -114,3 +114,292 @@ class FitBeads(Contract):
 
 
 CONTRACTS = [FitBeads()]
+
+
+# ---------------------------------------------------------------------------------------------
+from pyvc.values import PDict, NT, Partial
+from .common import sym_fcs, sym_dims
+from . import io_specs
+
+
+class GetTransformFxn(Contract):
+    """C02, orchestration of mef.get_transform_fxn, for EVERY clustering, statistic, selection and fitting function (they are
+    parameters of the real function: here uninterpreted deterministic callables that record what they are called with), all
+    sample sizes N, all numbers K of bead values per channel and U of populations found, C = 1 or 2 channels calibrated at once.
+
+    Proved of the real body:
+      * the clustering function is called once, with the events restricted to the clustering channels (default: the calibrated
+        channels) and n_clusters = K; its labels are reported unchanged (one label per event);
+      * the populations are the U groups of events with equal label, ordered by non-decreasing squared distance of their mean
+        (clustering channels) to the origin; the k-th statistic of channel c is the statistic function applied to column c of
+        the k-th population in that order (one statistic per population);
+      * for every channel c the fit receives exactly the pairs (statistic_k, mef_values[c][k]) of the positions k for which the
+        selection function's mask for channel c holds and mef_values[c][k] is not NaN, in increasing k -- the unknown values of
+        one channel do not affect another channel, the others keep their own values; the reported selection lists are the
+        arrays handed to the fit (equal length, paired);
+      * the returned transformation is functools.partial(FlowCal.transform.to_mef, sc_list=[curve of channel c, in order],
+        sc_channels=the calibrated channels) -- what to_mef does with it is the ToMef contract (C06);
+      * ValueError (operands could not be broadcast) only when the number of populations found differs from K.
+    Not covered here (bounded stand-in): that the default clustering groups events by generating subpopulation, the 10 % accuracy,
+    reproducibility for a fixed seed, selection_std's own rule."""
+    target = 'FlowCal.mef.get_transform_fxn'
+    property_ids = ('C02',)
+    config = {'call_contracts': io_specs.summaries()}
+    frame_result = None
+    max_paths = 300
+    assumptions = ('get_transform_fxn: clustering/statistic/selection/fitting functions are deterministic functions of their arguments '
+                   'that do not modify them (they are arbitrary otherwise); N >= 1; channel positions valid; plot=False, verbose=False',
+                   'A-LIB: set(labels) lists the distinct labels in an unspecified order; np.argsort permutation/sortedness; '
+                   'np.mean(axis=0) an uninterpreted column statistic')
+
+    def cases(self):
+        out = []
+        for C in (1, 2):
+            for cc in ('default', 'given'):
+                out.append({'label': 'C%d-clustering-channels-%s' % (C, cc), 'C': C, 'cc': cc})
+        return out
+
+    def setup(self, I, case):
+        c = I.ctx
+        N, D = sym_dims(I, 'N', 'D')
+        c.assume(z3.And(N >= 1, D >= 1))
+        data = sym_fcs(I, 'beads', N, D)
+        C = case['C']
+        K = c.fresh_int('K')
+        c.assume(K >= 1)
+        chs = [c.fresh_int('mch%d' % j) for j in range(C)]
+        for x in chs:
+            c.assume(z3.And(0 <= x, x < D))
+        if C == 2:
+            c.assume(chs[0] != chs[1])
+        mef = sym_array(I, 'mefv', [C, I.np.norm_dim(K)], 'float')
+        nanf = c.fresh_fn('mef_unknown', z3.IntSort(), z3.IntSort(), z3.BoolSort())
+        mef.nanfn = lambda a, b, nanf=nanf: nanf(a, b)
+        aux = {'N': N, 'D': D, 'K': K, 'data': data, 'chs': chs, 'mef': mef, 'nanf': nanf, 'calls': {'cluster': [], 'stat': [], 'sel': [], 'fit': []}}
+        log = aux['calls']
+        lab = c.fresh_fn('label', z3.IntSort(), z3.IntSort())
+        aux['lab'] = lab
+
+        def clustering(I_, a, k):
+            log['cluster'].append((a, dict(k)))
+            out = I_.np.new([N], 'int', lambda i, lab=lab: lab(i))
+            aux['labels'] = out
+            return out
+        stat_f = c.fresh_fn('statistic', z3.IntSort(), z3.IntSort(), z3.RealSort())      # (channel ordinal, sorted position)
+        aux['stat_f'] = stat_f
+
+        def statistic(I_, a, k):
+            kk = I_.comp_index_stack[-1] if I_.comp_index_stack else None
+            ordinal = len(log['sel'])            # channels are processed in order; selection is called once per channel after the statistics
+            log['stat'].append((ordinal, kk, a[0]))
+            if kk is None:
+                raise_py('TypeError', 'statistic outside a comprehension')
+            return SV(stat_f(z3.IntVal(ordinal), kk), 'real', True)
+        sel_f = c.fresh_fn('selected', z3.IntSort(), z3.IntSort(), z3.BoolSort())
+        aux['sel_f'] = sel_f
+
+        def selection(I_, a, k):
+            ordinal = len(log['sel'])
+            pops = a[0]
+            n_ = I_.seq_len(pops)
+            log['sel'].append((ordinal, pops))
+            return I_.np.new([I_.np.norm_dim(I_.z(n_, 'int'))], 'bool', lambda i, o=ordinal: sel_f(z3.IntVal(o), i))
+
+        def fitting(I_, a, k):
+            ordinal = len(log['fit'])
+            log['fit'].append((ordinal, a[0], a[1]))
+            return stamp(Seq('tuple', [Opaque('fit-output', (ordinal, j)) for j in range(5)]))
+        kw = {'clustering_fxn': Builtin('clustering', clustering), 'statistic_fxn': Builtin('statistic', statistic),
+              'selection_fxn': Builtin('selection', selection), 'fitting_fxn': Builtin('fitting', fitting),
+              'full_output': True, 'plot_filename': 'beads'}
+        if case['cc'] == 'given':
+            cch = c.fresh_int('cch')
+            c.assume(z3.And(0 <= cch, cch < D))
+            aux['cch'] = [cch]
+            kw['clustering_channels'] = stamp(Seq('list', [SV(cch, 'int')]))
+        else:
+            aux['cch'] = list(chs)
+        args = [data, mef, stamp(Seq('list', [SV(x, 'int') for x in chs]))]
+        return args, kw, aux
+
+    def expected_outcomes(self, case):
+        return ['return']
+
+    def small_hints(self, case, aux):
+        return [z3.And(aux['N'] <= n, aux['D'] <= 3, aux['K'] <= 3) for n in (3, 6)]
+
+    def witness(self, model, case, aux):
+        from .common import data_witness, mval
+        w = data_witness(model, aux['data'], 'FCSData')
+        N, K = mval(model, aux['N']), mval(model, aux['K'])
+        C = case['C']
+        if not (isinstance(N, int) and isinstance(K, int) and N <= 40 and K <= 12):
+            return w
+        w.update({'chs': [mval(model, x) for x in aux['chs']], 'cch': [mval(model, x) for x in aux['cch']],
+                  'labels': [mval(model, aux['lab'](z3.IntVal(i))) for i in range(N)],
+                  'mef': [[None if mval(model, aux['nanf'](z3.IntVal(ci), z3.IntVal(k))) else mval(model, aux['mef'].ufn(z3.IntVal(ci), z3.IntVal(k)))
+                           for k in range(K)] for ci in range(C)],
+                  'selected': [[bool(mval(model, aux['sel_f'](z3.IntVal(ci), z3.IntVal(k)))) for k in range(K)] for ci in range(C)]})
+        return w
+
+    def check(self, I, case, aux, out):
+        c = I.ctx
+        P = c.prove
+        N, K, data, chs, log = aux['N'], aux['K'], aux['data'], aux['chs'], aux['calls']
+        env = getattr(I, 'top_env', {})
+        C = case['C']
+        ul = env.get('unique_labels')
+        U = I.np.dim_z(ul.shape[0]) if isinstance(ul, NDArr) else None
+        if out.kind == 'raise':
+            # np.logical_and of masks of different lengths: ValueError, or (one of them of length 1: NumPy stretches it) IndexError
+            # from the boolean index that follows
+            P('raises-only-ValueError-or-IndexError', out.raised('ValueError') or out.raised('IndexError'))
+            P('refused-only-when-populations-found-differ-from-values-given', U is not None and z3.simplify(U != K))
+            if U is not None:
+                P('refused-only-when-populations-found-differ-from-values-given.count', U != K)
+            return
+        P('populations-found-equal-values-given', U is not None and True)
+        if U is not None:
+            P('populations-found-equal-values-given.count', U == K)
+        # ---- clustering call ----------------------------------------------------------------------------------------------
+        P('clustering-called-once', len(log['cluster']) == 1)
+        if len(log['cluster']) != 1:
+            return
+        (ca, ck) = log['cluster'][0]
+        ok = len(ca) == 2 and isinstance(ca[0], NDArr) and ca[0].ndim == 2 and not ck
+        P('clustering-call-shape(events, n_clusters)', ok)
+        if ok:
+            i = c.fresh_int('ev_i')
+            P('clustering-gets-n_clusters-equal-number-of-values', I.z(ca[1], 'int') == K)
+            cols = aux['cch']
+            P('clustering-gets-all-events-of-the-clustering-channels',
+              z3.And(I.np.dim_z(ca[0].shape[0]) == N, I.np.dim_z(ca[0].shape[1]) == len(cols),
+                     z3.Implies(z3.And(0 <= i, i < N), z3.And(*[ca[0].fn(i, z3.IntVal(j)) == data.ufn(i, cols[j]) for j in range(len(cols))]))),
+              assume_after=False)
+        v = out.value
+        fields = ['mef_channels', 'transform_fxn', 'clustering', 'statistic', 'selection', 'fitting']
+        P('full-output-is-namedtuple', isinstance(v, NT) and v.cls.fields == fields)
+        if not (isinstance(v, NT) and v.cls.fields == fields):
+            return
+        cl = v.get('clustering')
+        P('labels-reported-are-the-clustering-result(one label per event)',
+          isinstance(cl, PDict) and cl.keys == ['labels'] and cl.vals[0] is aux.get('labels'))
+        # ---- populations: groups of equal label, in order of distance -------------------------------------------------------
+        psi = env.get('population_sorted_idx')
+        uq = getattr(env.get('unique_labels'), 'fn', None)
+        P('internals-visible(unique labels, sort order)', isinstance(psi, NDArr) and uq is not None and hasattr(psi, 'perm'))
+        if not (isinstance(psi, NDArr) and uq is not None and hasattr(psi, 'perm')):
+            return
+        Pf, Qf, dist = psi.perm
+        lab = aux['lab']
+        k = c.fresh_int('pop_k')
+        rng_k = z3.And(0 <= k, k < U)
+        c.assume(rng_k)         # k: an arbitrary position in the list of populations
+        # the label of the k-th population in the final order
+        labk = uq(Pf(k))
+        stats_res = v.get('statistic')
+        selr = v.get('selection')
+        fitr = v.get('fitting')
+        sok = isinstance(stats_res, PDict) and stats_res.keys == ['values'] and isinstance(stats_res.vals[0], Seq) and len(stats_res.vals[0].items) == C
+        P('one-statistics-array-per-channel', sok)
+        P('one-fit-per-channel', len(log['fit']) == C and len(log['sel']) == C)
+        if not sok or len(log['fit']) != C or len(log['sel']) != C:
+            return
+        i = c.fresh_int('ev_i2')
+        for ci in range(C):
+            sv = stats_res.vals[0].items[ci]
+            ok = isinstance(sv, NDArr) and sv.ndim == 1
+            P('statistics[%d]-is-1d-array' % ci, ok)
+            if not ok:
+                continue
+            P('statistics[%d]-one-per-population' % ci, I.np.dim_z(sv.shape[0]) == U)
+            P('statistics[%d]-k-th-entry-is-the-statistic-of-the-k-th-population' % ci,
+              z3.Implies(rng_k, sv.fn(k) == aux['stat_f'](z3.IntVal(ci), k)), assume_after=False)
+            # what the statistic function was applied to at position k: evaluate the argument list element for the arbitrary k
+            pcs = None
+            for (o_, pops_) in log['sel']:
+                if o_ == ci:
+                    pcs = pops_
+            okp = pcs is not None
+            P('selection[%d]-gets-the-per-population-columns' % ci, okp)
+            if okp:
+                def arg_parts(pcs=pcs, ci=ci):
+                    arr = I.seq_get_sym(pcs, k)
+                    if not (isinstance(arr, NDArr) and arr.ndim == 1):
+                        return None
+                    # arr = column chs[ci] of the events whose label is labk, in file order
+                    flt = arr
+                    while flt is not None and getattr(flt, 'filter_sel', None) is None:
+                        flt = flt.view_of if flt.view_of is not None else getattr(flt, 'base', None)
+                    sel = getattr(flt, 'filter_sel', None)
+                    if sel is None or not hasattr(sel, 'mask_fn') or flt.term[1] is not data:
+                        return None
+                    return arr, sel
+
+                def group_mask():
+                    pr = arg_parts()
+                    if pr is None:
+                        return False
+                    return z3.Implies(z3.And(0 <= i, i < N), pr[1].mask_fn(i) == (lab(i) == labk))
+
+                def group_values():
+                    pr = arg_parts()
+                    if pr is None:
+                        return False
+                    arr, sel = pr
+                    r = c.fresh_int('grp_r')
+                    return z3.Implies(z3.And(0 <= r, r < I.np.dim_z(arr.shape[0])), arr.fn(r) == data.ufn(sel.fn(r), chs[ci]))
+                I.prove_forked('population[%d][k]-holds-exactly-the-events-with-the-k-th-label' % ci, group_mask)
+                I.prove_forked('population[%d][k]-passed-to-statistic-and-selection-is-column-c-of-those-events' % ci, group_values)
+            # ---- selection and pairing ----------------------------------------------------------------------------------------
+            (fo, rfi, mefs) = log['fit'][ci]
+            ok = isinstance(rfi, NDArr) and isinstance(mefs, NDArr) and getattr(rfi, 'filter_sel', None) is not None \
+                and getattr(mefs, 'filter_sel', None) is not None
+            P('fit[%d]-receives-filtered-arrays' % ci, ok)
+            if not ok:
+                continue
+            s1, s2 = rfi.filter_sel, mefs.filter_sel
+            P('fit[%d]-rfi-and-mef-filtered-by-the-same-mask(paired, equal length)' % ci, s1 is s2)
+            kk = c.fresh_int('sel_k')
+            want = z3.And(aux['sel_f'](z3.IntVal(ci), kk), z3.Not(aux['nanf'](z3.IntVal(ci), kk)))
+            P('fit[%d]-mask-is-selected-and-value-known-for-this-channel' % ci,
+              z3.Implies(z3.And(0 <= kk, kk < K), s1.mask_fn(kk) == want), assume_after=False)
+            r = c.fresh_int('sel_r')
+            inr = z3.And(0 <= r, r < I.np.dim_z(rfi.shape[0]))
+            P('fit[%d]-rfi-are-the-statistics-of-the-kept-positions' % ci,
+              z3.Implies(inr, rfi.fn(r) == aux['stat_f'](z3.IntVal(ci), s1.fn(r))), assume_after=False)
+            P('fit[%d]-mef-are-this-channels-values-of-the-kept-positions' % ci,
+              z3.Implies(inr, mefs.fn(r) == aux['mef'].ufn(z3.IntVal(ci), s1.fn(r))), assume_after=False)
+            P('fit[%d]-no-unknown-value-is-passed' % ci, z3.Implies(inr, z3.Not(mefs.nanfn(r))) if mefs.nanfn is not None else True,
+              assume_after=False)
+            rok = isinstance(selr, PDict) and selr.keys == ['rfi', 'mef'] and all(isinstance(x, Seq) and len(x.items) == C for x in selr.vals)
+            P('selection-lists-reported-are-those-passed-to-the-fit[%d]' % ci,
+              rok and selr.vals[0].items[ci] is rfi and selr.vals[1].items[ci] is mefs)
+        # ---- order of populations ---------------------------------------------------------------------------------------------
+        k1, k2 = c.fresh_int('pop_k1'), c.fresh_int('pop_k2')
+        P('populations-ordered-by-non-decreasing-distance', z3.Implies(z3.And(0 <= k1, k1 < k2, k2 < U), dist(Pf(k1)) <= dist(Pf(k2))),
+          assume_after=False)
+        P('each-label-group-appears-once', z3.Implies(z3.And(0 <= k1, k1 < k2, k2 < U), uq(Pf(k1)) != uq(Pf(k2))), assume_after=False)
+        pd = env.get('population_dist')
+        # ---- fits and the returned transformation --------------------------------------------------------------------------------
+        tf = v.get('transform_fxn')
+        ok = isinstance(tf, Partial) and not tf.args and sorted(tf.kwargs) == ['sc_channels', 'sc_list']
+        P('transformation-is-partial(to_mef, sc_list, sc_channels)', ok)
+        if ok:
+            f = tf.func
+            P('transformation-wraps-FlowCal.transform.to_mef', isinstance(f, Closure) and I.qual_of(f) == 'FlowCal.transform.to_mef')
+            sl, sc = tf.kwargs['sc_list'], tf.kwargs['sc_channels']
+            P('one-curve-per-calibrated-channel-in-order',
+              isinstance(sl, Seq) and len(sl.items) == C and all(isinstance(x, Opaque) and x.tag == 'fit-output' and x.payload == (j, 0)
+                                                                 for j, x in enumerate(sl.items)))
+            P('curves-bound-to-the-calibrated-channels',
+              isinstance(sc, Seq) and len(sc.items) == C and all(z3.eq(z3.simplify(I.z(x, 'int')), z3.simplify(chs[j])) for j, x in enumerate(sc.items)))
+        fok = isinstance(fitr, PDict) and fitr.keys == ['std_crv', 'beads_model', 'beads_params', 'beads_model_str', 'beads_params_names']
+        P('fitting-results-reported-per-channel-in-order',
+          fok and all(isinstance(fitr.vals[j], Seq) and [getattr(x, 'payload', None) for x in fitr.vals[j].items] == [(ci, j) for ci in range(C)]
+                      for j in range(5)))
+        mc = v.get('mef_channels')
+        P('calibrated-channels-reported', isinstance(mc, Seq) and len(mc.items) == C)
+
+
+CONTRACTS.append(GetTransformFxn())
